@@ -145,6 +145,39 @@ pub fn check_case(c: &Case18, stats: &mut Stats) -> Vec<Failure> {
             (Obs::Shape(sa, _), Obs::Bad(kb, db)) => fails.push(mk("mapping_breaks_output", format!("{}: {}", kb, db), format!("{} with {} replaced by {}", sa, ref_name, c.target))),
         }
     }
+    // Zod mode: "rendered as the schema corresponding to M": a primitive target must become the
+    // primitive schema, not a catch-all such as z.custom<M>(() => true)
+    if zod {
+        if let Some(types_b) = out_b.file("types.ts") {
+            let env = super::c10::schema_env(types_b);
+            for (konst, key, site) in [("HolderSchema", "f", "field"), ("TakeParamsSchema", "x", "param")] {
+                if let Some(crate::zodm::Z::Object(fields)) = env.get(konst) {
+                    if let Some((_, z)) = fields.iter().find(|(k, _)| k == key) {
+                        let mut customs = vec![];
+                        fn walk(z: &crate::zodm::Z, out: &mut Vec<String>) {
+                            use crate::zodm::Z;
+                            match z {
+                                Z::Custom(t) => out.push(format!("z.custom<{}>", t.as_ref().map(|t| crate::ts::shape::normalise(t).to_string()).unwrap_or_default())),
+                                Z::Any | Z::Unknown => out.push("z.any/unknown".into()),
+                                Z::Array { inner, .. } | Z::Set(inner) | Z::Optional(inner) | Z::Nullable(inner) | Z::Lazy(inner) => walk(inner, out),
+                                Z::Map(a, b) | Z::Record(a, b) | Z::Inter(a, b) => {
+                                    walk(a, out);
+                                    walk(b, out);
+                                }
+                                Z::Tuple(v) | Z::Union(v) => v.iter().for_each(|x| walk(x, out)),
+                                Z::Object(f) => f.iter().for_each(|(_, x)| walk(x, out)),
+                                _ => {}
+                            }
+                        }
+                        walk(z, &mut customs);
+                        if !customs.is_empty() {
+                            fails.push(Failure::new("mapped_to_catch_all_schema").tags(base_tags.clone()).tag(format!("site={}", site)).observed(format!("{:?} in {}", customs, crate::tsx::parse(types_b).src_of(konst).unwrap_or_default())).expected(format!("the Zod schema of `{}` (z.{}() / z.coerce.{}())", c.target, c.target, c.target)).case(case.clone()));
+                        }
+                    }
+                }
+            }
+        }
+    }
     // N / NSchema never declared in B
     if let Some(types_b) = out_b.file("types.ts") {
         let p = crate::tsx::parse(types_b);
